@@ -13,7 +13,7 @@ from . import c10_driver as D
 
 CLAUSES = ['argv_exact', 'env_described', 'rp_env_complete', 'cwd_sandbox', 'pre_before_post_after',
            'per_rank_only_on_rank', 'failing_pre_blocks_exec', 'exit_code_rule', 'output_files',
-           'executable_runs']
+           'executable_runs', 'script_terminates']
 
 SITES = {
     'argv_exact': 'LaunchMethod.get_exec',
@@ -26,6 +26,8 @@ SITES = {
     'exit_code_rule': 'AgentExecutingComponent._get_exec/_get_launch',
     'output_files': 'AgentExecutingComponent._get_launch',
     'executable_runs': 'AgentExecutingComponent._create_exec_script',
+    'script_terminates': 'AgentExecutingComponent._get_rank_ids(rp_sync_ranks)',
+    'sync_barrier_holds': 'AgentExecutingComponent._get_rank_ids(rp_sync_ranks)',
     'impl_error': 'Popen._handle_task',
 }
 
@@ -131,10 +133,10 @@ def obs_lit(case, obs):
                                           L.lst(['(%s, %s)' % (bz(k), bz(v)) for k, v in p['env']]))
         rs.append('(mkR %s %s %s)' % (L.lst([event_lit(case['uid'], e) for e in ro['trace']]), pl,
                                       'None' if ro['rc'] is None else '(Some %s)' % L.Z(ro['rc'])))
-    return '(mkO %s %s %s %s %s %s %s)' % (
+    return '(mkO %s %s %s %s %s %s %s %s)' % (
         L.Z(obs['launch_rc']), L.lst([event_lit(case['uid'], e) for e in obs['ltrace']]), L.lst(rs),
         lines_lit(obs['stdout']), lines_lit(obs['stderr']),
-        L.lst([bz(x) for x in (obs['sig'] or [])]), obz(obs['exec_line']))
+        L.lst([bz(x) for x in (obs['sig'] or [])]), obz(obs['exec_line']), L.zlist(obs.get('blocked') or []))
 
 
 # ------------------------------------------------------------------ generator
@@ -217,7 +219,58 @@ def gen_case(rng, quoting_heavy=False):
         'startup_to': rng.random() < 0.2, 'prof': rng.random() < 0.2,
         'rcs': [0 if rng.random() < 0.7 else rng.choice([1, 2, 3, 42, 127, 255]) for _ in range(ranks)],
     }
+    if sync and ranks > 1 and gate_ok(case) and rng.random() < 0.75:
+        order = list(range(ranks))
+        rng.shuffle(order)
+        case['order'] = order
     return case
+
+
+def all_cmds(case):
+    for e in case['pre']:
+        if 'all' in e:
+            yield e['all']
+        else:
+            for _, cs in e['per']:
+                for x in cs:
+                    yield x
+    for x in case['task_pre_exec'] + case['pre_launch']:
+        yield x
+
+
+def gate_ok(case):
+    """a prescribed arrival order needs every rank to reach the synchronisation"""
+    return not any(x[0] == 'stub' and x[2] for x in all_cmds(case))
+
+
+def sync_case(n, order, extra=None):
+    """minimal task with pre_exec_sync: n ranks arriving at the rank synchronisation in the given order"""
+    c = {'uid': 'task.000000', 'name': None, 'exe': 'probe', 'args': ['a'], 'env': [], 'ranks': n, 'cpr': 1,
+         'gpr_q': 0, 'omp': False, 'cuda': False, 'mpi': False, 'gpus': None,
+         'pre': [{'all': ['stub', 1, 0]}], 'post': [], 'sync': True, 'pre_launch': [], 'post_launch': [],
+         'task_pre_exec': [], 'stdout': None, 'stderr': None, 'startup_to': False, 'prof': False,
+         'rcs': [0] * n, 'order': list(order)}
+    c.update(extra or {})
+    return c
+
+
+def sync_cases(tier):
+    import itertools
+    seen = set()
+    for n in (2, 3, 4):
+        orders = []
+        for d in range(n):
+            rest = [r for r in range(n) if r != d]
+            orders += [rest + [d], [d] + rest]          # rank d delayed to the end / first to arrive
+        if n == 3 or tier == 'thorough':
+            orders += [list(p) for p in itertools.permutations(range(n))]
+        for o in orders:
+            if tuple(o) not in seen:
+                seen.add(tuple(o))
+                yield sync_case(n, o)
+    # the synchronisation combined with per-rank entries, a post_exec and a non-zero exit code
+    yield sync_case(3, [2, 0, 1], {'pre': [{'all': ['stub', 1, 0]}, {'per': [[1, [['stub', 2, 0]]]]}],
+                                   'post': [{'all': ['stub', 3, 0]}], 'rcs': [0, 5, 0]})
 
 
 def special(s):
@@ -246,7 +299,9 @@ class C10(Prop):
     trusted = [
         'correspondence harness harness/c10.py + c10_driver.py: mock set-up of the Popen component, stub '
         'commands/probe/prof/radical-pilot-control scripts, stand-in multi-rank launcher FakeMPI (subclass of the real '
-        'Fork: starts the exec script once per rank with VERIF_RANK preset, exit = first non-zero rank status), '
+        'Fork: starts the exec script once per rank with VERIF_RANK preset, exit = first non-zero rank status; can hold '
+        'a rank back until k ranks have written the synchronisation marker, which fixes the arrival order), launch '
+        'timeout + process-group kill + circuit breaker (cases not run are listed in the evidence), '
         'canonicalisation of the scratch root to /R, parsing of trace/probe files',
         'bash 5.2 and coreutils as the ground truth of the shell semantics; Quote.bash_words models only the '
         'fragment the generator emits and is validated against bash on every case, not verified',
@@ -262,6 +317,8 @@ class C10(Prop):
 
     # ------------------------------------------------------------------ cases
     def cases(self, rng, tier):
+        for c in sync_cases(tier):
+            yield c
         n = 260 if tier == 'quick' else 4000
         for i in range(n):
             yield gen_case(rng, quoting_heavy=(i % 4 == 0))
@@ -282,7 +339,9 @@ class C10(Prop):
     # ------------------------------------------------------------------ impl
     def impl_setup(self):
         self.rp = rp_import()
-        self.driver = D.Driver(self.rp, os.path.join(os.getcwd(), 'c10'))
+        # children run in <scratch>/wd_<k>: the launch-timeout ledger is shared by all workers of one check run
+        self.driver = D.Driver(self.rp, os.path.join(os.getcwd(), 'c10'),
+                               breaker=os.path.join(os.path.dirname(os.getcwd()), 'c10_launch_timeouts.log'))
 
     def run_impl(self, case):
         return self.driver.run(case)
@@ -292,6 +351,8 @@ class C10(Prop):
         return '%s %s %s' % (cfg_lit(case), task_lit(case), L.zlist(case['rcs']))
 
     def coq_row(self, case, obs):
+        if obs.get('not_run'):
+            return 'c10_notrun_row'
         if obs.get('gen_error'):
             return '(c10_generr_row %s)' % self._args(case)
         return '(c10_row %s %s)' % (self._args(case), obs_lit(case, obs))
@@ -300,7 +361,7 @@ class C10(Prop):
         return 'show_model %s' % self._args(case)
 
     def nontrivial(self, case, obs):
-        if obs.get('gen_error'):
+        if obs.get('gen_error') or obs.get('not_run'):
             return False
         ran = any(r['probe'] is not None for r in obs['ranks'])
         rich = (any(special(a) for a in case['args']) or any(special(v) for _, v in case['env'])
@@ -310,7 +371,11 @@ class C10(Prop):
 
     def signature(self, case, obs, clause):
         cond = 'any'
-        if clause == 'env_described' or clause == 'argv_exact':
+        if clause in ('script_terminates', 'sync_barrier_holds'):
+            cond = D.case_kind(case)
+        elif obs and obs.get('launch_rc') == -1 and D.case_kind(case) != 'other':
+            cond = 'launch-timeout-' + D.case_kind(case)
+        elif clause == 'env_described' or clause == 'argv_exact':
             vals = [v for _, v in case['env']] if clause == 'env_described' else case['args']
             if any('"' in v for v in vals):
                 cond = 'value-with-double-quote'
@@ -378,7 +443,8 @@ class C10(Prop):
                     yield dict(c, env=c['env'][:i] + [[k, b]] + c['env'][i + 1:])
         if c['ranks'] > 1:
             n = c['ranks'] - 1
-            yield dict(c, ranks=n, rcs=c['rcs'][:n], gpus=None if c.get('gpus') is None else c['gpus'][:n])
+            yield dict(c, ranks=n, rcs=c['rcs'][:n], gpus=None if c.get('gpus') is None else c['gpus'][:n],
+                       order=[r for r in c['order'] if r < n] if c.get('order') else None)
         for key in ('pre', 'post', 'pre_launch', 'post_launch', 'task_pre_exec'):
             for i in range(len(c[key])):
                 yield dict(c, **{key: c[key][:i] + c[key][i + 1:]})
@@ -399,13 +465,20 @@ class C10(Prop):
     def distribution(self, results):
         d = dict(cases=len(results), ranks={}, gen_errors=0, with_per_rank_entries=0, with_failing_pre=0,
                  with_failing_post=0, exe_nonzero=0, special_args=0, special_env_values=0, special_output_names=0,
-                 sync=0, executable_ran=0)
+                 sync=0, executable_ran=0, launch_timeouts=0, prescribed_arrival_order=0, max_script_wall_s=0,
+                 launch_timeout_s=D.LAUNCH_TIMEOUT, not_run={})
         for r in results:
             c, o = r['case'], r['obs']
             d['ranks'][str(c['ranks'])] = d['ranks'].get(str(c['ranks']), 0) + 1
+            if o is not None and o.get('not_run'):
+                d['not_run'][o['not_run']] = d['not_run'].get(o['not_run'], 0) + 1
+                continue
             if o is None or o.get('gen_error'):
                 d['gen_errors'] += 1
                 continue
+            d['launch_timeouts'] += (o.get('launch_rc') == -1)
+            d['prescribed_arrival_order'] += bool(c.get('order') and c['sync'] and c['ranks'] > 1)
+            d['max_script_wall_s'] = max(d['max_script_wall_s'], o.get('wall') or 0)
 
             def cmds(es):
                 for e in es:
@@ -424,7 +497,37 @@ class C10(Prop):
             d['special_output_names'] += any(special(c.get(k) or 'x') for k in ('stdout', 'stderr'))
             d['sync'] += bool(c['sync'])
             d['executable_ran'] += any(x['probe'] is not None for x in o['ranks'])
+        for kind, n in sorted(d['not_run'].items()):
+            # never silent: these cases were generated but their scripts were not executed
+            print('NOT-RUN property=C10 kind=%s cases=%d (after %d launch timeouts of this kind the remaining cases of '
+                  'the kind are skipped; the violation is reported with the inputs that did run)' % (kind, n, D.BREAKER_N))
+        if d['not_run']:
+            d['not_run_reason'] = ('after %d launch timeouts (%.0f s each) of one kind of case, further cases of that '
+                                   'kind are not executed in this run' % (D.BREAKER_N, D.LAUNCH_TIMEOUT))
         return d
+
+    # with pre_exec_sync no rank may start the executable before every rank has finished its pre_exec commands:
+    # checked on the global (cross-rank) order of the trace lines
+    def extra_checks(self, ctx):
+        out = []
+        for r in ctx['results']:
+            c, o = r['case'], r['obs']
+            if not o or o.get('not_run') or o.get('gen_error') or not c['sync'] or c['ranks'] < 2:
+                continue
+            if not gate_ok(c) or o.get('launch_rc') == -1:
+                continue
+            g = o.get('gtrace') or []
+            first_start = next((i for i, x in enumerate(g) if x.endswith(' P:rank_start')), None)
+            if first_start is None:
+                continue
+            arrived = {x.split(' ')[0] for x in g[:first_start] if x.endswith(' P:exec_pre')}
+            missing = [str(k) for k in range(c['ranks']) if str(k) not in arrived]
+            if missing:
+                out.append(('sync_barrier_holds', c, o,
+                            'rank %s started the executable (rank_start) before rank(s) %s had even begun their '
+                            'pre_exec section: %s' % (g[first_start].split(' ')[0], ','.join(missing), g[:first_start + 1])))
+                break
+        return out
 
 
 PROP = C10()
